@@ -7,14 +7,19 @@ import Cpppo.Generated.Tables
 /-!
 # C16 — dotdict behaves as a tree of nested mappings addressed by dotted paths
 
-Property theorems about the model `Cpppo.Dotdict` (`Model/Dotdict.lean`), which mirrors `dotdict.py`
-*with the three `fix:` patches of `fixes/C16-*.patch` applied* (`Cfg.fixResolve`, `Cfg.fixReserved`,
-repaired `__copy__`); the behaviour of the code before each patch is kept (`fixResolve := false`,
-`fixReserved := false`, `Heap.copyObj false`) and shown to violate the property on a concrete witness.
+Property theorems about the model `Cpppo.Dotdict` (`Model/Dotdict.lean`), which mirrors `dotdict.py` as it
+is (with the two applied `fix:` commits: reserved names refused for intermediate levels, `__copy__` copies
+the mappings held in lists).  The behaviour before those commits is kept (`fixReserved := false`,
+`Heap.copyObj false`) and shown to violate the property on a witness.  One defect of the code as it is is a
+**known finding**: a key that reduces to one leading dot and a single name (`'.c'`) is resolved to that name
+twice.  The theorems that it touches are stated in full (`ResolveNormal`, `DotdotAddressesParent`,
+`LeadingDotsIgnored`), proved as `…_partial` under the decidable hypothesis `reducesToDotName key = false`,
+proved in full for the alternative `_resolve` (`…_repaired`, `fixResolve := true`), and refuted for the code
+as it is on the witness (`…_fails`, `leading_dot_single_component`).
 
 Layers:
-* text: `chain` iterates `_resolve` as the nested `target[rest]` calls do; `resolve_normal` says it
-  computes the stack meaning of the dotted path (`SKey.path`), for every well-formed key text.
+* text: `chain` iterates `_resolve` as the nested `target[rest]` calls do; `resolve_normal_partial` says it
+  computes the stack meaning of the dotted path (`SKey.path`).
 * tree: `getK`/`setK`/`delK`/`popK`/… over the resolved segments; the theorems below hold for every
   tree, every segment list satisfying the decidable `GoodSeg`, every value.
 
@@ -25,36 +30,82 @@ namespace Cpppo.Dotdict
 
 deriving instance DecidableEq for Except
 
-/-- the configuration read from the live class (`dotdict.__invalid_keys__`), repaired code -/
+/-- the code as it is: reserved names read from the live class (`dotdict.__invalid_keys__`),
+`_resolve` with its stale `rest` (`fixResolve = false`), reserved names refused for intermediate levels -/
 def liveCfg : Cfg := { reserved := Generated.dotdictInvalidKeys }
 
-/-! ## 1. `'..'` components address the parent level -/
+/-- the alternative in which `_resolve` clears `rest` (not applied: the library relies on `'.name'`
+keys being written and read through the same detour) -/
+def repairedCfg : Cfg := { liveCfg with fixResolve := true }
 
-/-- **`_resolve`, iterated as the nested calls do, yields exactly the levels the dotted path means.**
+/-! ## 1. `'..'` components address the parent level
+
 `k.path` is computed by the stack walk `go`: a component is pushed, a run of `d` dots after it pops
 `d - 1` levels (never above the root), leading dots are ignored; a path that ends at the root is
-refused with `KeyError`.  Holds for every key structure whose components are proper texts. -/
-theorem resolve_normal (k : SKey) (hw : k.WF) (hne : k.render ≠ []) :
-    chain true k.render = k.path :=
-  chain_render k hw hne
+refused with `KeyError`. -/
+
+/-- **Full statement**: `_resolve`, iterated as the nested calls do, yields exactly the levels the
+dotted path means, for every key structure whose components are proper texts. -/
+def ResolveNormal (fixed : Bool) : Prop :=
+  ∀ k : SKey, k.WF → k.render ≠ [] → chain fixed k.render = k.path
+
+/-- **Proved for the code as it is, except for keys that reduce to one leading dot and a single name**
+(`reducesToDotName`, a decidable predicate on the key text: after the `'..'` loop the text is `.name`). -/
+theorem resolve_normal_partial (k : SKey) (hw : k.WF) (hne : k.render ≠ [])
+    (hok : reducesToDotName k.render = false) : chain false k.render = k.path :=
+  chain_render false k hw hne (Or.inr hok)
+
+/-- the full statement holds for the alternative `_resolve` that clears `rest` -/
+theorem resolve_normal_repaired : ResolveNormal true :=
+  fun k hw hne => chain_render true k hw hne (Or.inl rfl)
+
+/-- **The full statement is false for the code as it is** (known finding): `'.c'` is a well-formed key
+(one leading dot, the component `c`) that means the level `c`, but resolves to `c` inside `c`. -/
+theorem resolve_normal_fails : ¬ ResolveNormal false := by
+  intro h
+  have hw : (SKey.mk 1 [("c".toList, 0)]).WF := by
+    simp [SKey.WF, WFC, TextSeg, balanced, opens, closes]
+  have := h ⟨1, [("c".toList, 0)]⟩ hw (by decide +kernel)
+  exact absurd this (by decide +kernel)
+
+/-- **Witness of the known finding on the operations**: with `a = 2` stored, `d['.a']` raises `KeyError`
+and `'.a' in d` is `False` (the input replayed on the implementation by every run);
+`d['.c'] = 2` creates `d.c.c`; the alternative `_resolve` gives `2` / `d.c`. -/
+theorem leading_dot_single_component :
+    chain false ".c".toList = ⟨["c".toList, "c".toList], none⟩ ∧
+    getT liveCfg (.node [("a".toList, .leaf 2)]) ".a".toList = .error .key ∧
+    containsT liveCfg (.node [("a".toList, .leaf 2)]) ".a".toList = .ok false ∧
+    (setT liveCfg (.node []) ".c".toList (.tree (.leaf 2))).1
+      = .node [("c".toList, .node [("c".toList, .leaf 2)])] ∧
+    getT repairedCfg (.node [("a".toList, .leaf 2)]) ".a".toList = .ok (.leaf 2) ∧
+    (setT repairedCfg (.node []) ".c".toList (.tree (.leaf 2))).1 = .node [("c".toList, .leaf 2)] := by
+  decide +kernel
 
 /-- lookup by key text is lookup along the meaning of the key (the two layers compose) -/
-theorem lookup_by_meaning (cfg : Cfg) (hfix : cfg.fixResolve = true) (t : Tree) (k : SKey) (hw : k.WF)
-    (hne : k.render ≠ []) : getT cfg t k.render = getK (rootKvs t) k.path.segs k.path.fin := by
-  simp only [getT, hfix, resolve_normal k hw hne]
+theorem lookup_by_meaning_partial (cfg : Cfg) (t : Tree) (k : SKey) (hw : k.WF) (hne : k.render ≠ [])
+    (hok : cfg.fixResolve = true ∨ reducesToDotName k.render = false) :
+    getT cfg t k.render = getK (rootKvs t) k.path.segs k.path.fin := by
+  simp only [getT, chain_render cfg.fixResolve k hw hne hok]
 
-/-- **`p.x..q` addresses what `p.q` addresses**: a component followed by two dots is skipped, whatever
-it is (it is not even looked up), at any depth and after any prefix. -/
-theorem dotdot_addresses_parent (ld : Nat) (pre : List (Name × Nat)) (x : Name) (q : List (Name × Nat))
-    (hq : q ≠ []) (hw1 : WFC (pre ++ (x, 2) :: q)) (hw2 : WFC (pre ++ q)) :
-    chain true (SKey.render ⟨ld, pre ++ (x, 2) :: q⟩) = chain true (SKey.render ⟨ld, pre ++ q⟩) := by
+/-- **Full statement**: `p.x..q` addresses what `p.q` addresses — a component followed by two dots is
+skipped, whatever it is (it is not even looked up), at any depth and after any prefix. -/
+def DotdotAddressesParent (fixed : Bool) : Prop :=
+  ∀ (ld : Nat) (pre : List (Name × Nat)) (x : Name) (q : List (Name × Nat)), q ≠ [] →
+    WFC (pre ++ (x, 2) :: q) → WFC (pre ++ q) →
+    chain fixed (SKey.render ⟨ld, pre ++ (x, 2) :: q⟩) = chain fixed (SKey.render ⟨ld, pre ++ q⟩)
+
+theorem dotdot_addresses_parent_partial (fixed : Bool) (ld : Nat) (pre : List (Name × Nat)) (x : Name)
+    (q : List (Name × Nat)) (hq : q ≠ []) (hw1 : WFC (pre ++ (x, 2) :: q)) (hw2 : WFC (pre ++ q))
+    (hok1 : fixed = true ∨ reducesToDotName (SKey.render ⟨ld, pre ++ (x, 2) :: q⟩) = false)
+    (hok2 : fixed = true ∨ reducesToDotName (SKey.render ⟨ld, pre ++ q⟩) = false) :
+    chain fixed (SKey.render ⟨ld, pre ++ (x, 2) :: q⟩) = chain fixed (SKey.render ⟨ld, pre ++ q⟩) := by
   have hne : ∀ (c : List (Name × Nat)), WFC c → c ≠ [] → SKey.render ⟨ld, c⟩ ≠ [] := by
     intro c hc hcne h
     have := renderComps_ne hc hcne
     simp only [SKey.render, List.append_eq_nil_iff] at h
     exact this h.2
-  rw [resolve_normal ⟨ld, pre ++ (x, 2) :: q⟩ hw1 (hne _ hw1 (by simp)),
-    resolve_normal ⟨ld, pre ++ q⟩ hw2 (hne _ hw2 (by simp [hq]))]
+  rw [chain_render fixed ⟨ld, pre ++ (x, 2) :: q⟩ hw1 (hne _ hw1 (by simp)) hok1,
+    chain_render fixed ⟨ld, pre ++ q⟩ hw2 (hne _ hw2 (by simp [hq])) hok2]
   simp only [SKey.path, SKey.meaning]
   rw [go_append pre _ _ (by simp), go_append pre q _ hq]
   congr 1
@@ -62,36 +113,57 @@ theorem dotdot_addresses_parent (ld : Nat) (pre : List (Name × Nat)) (x : Name)
   | nil => exact absurd rfl hq
   | cons c t => rw [go_cons_cons]; simp
 
-/-- leading dots are ignored -/
-theorem leading_dots_ignored (ld : Nat) (comps : List (Name × Nat)) (hw : WFC comps) (hne : comps ≠ []) :
-    chain true (SKey.render ⟨ld, comps⟩) = chain true (SKey.render ⟨0, comps⟩) := by
+theorem dotdot_addresses_parent_repaired : DotdotAddressesParent true :=
+  fun ld pre x q hq hw1 hw2 =>
+    dotdot_addresses_parent_partial true ld pre x q hq hw1 hw2 (Or.inl rfl) (Or.inl rfl)
+
+/-- false for the code as it is: `'.x..c'` resolves to `c`, `'.c'` to `c` inside `c` -/
+theorem dotdot_addresses_parent_fails : ¬ DotdotAddressesParent false := by
+  intro h
+  have := h 1 [] "x".toList [("c".toList, 0)] (by simp)
+    (by simp [WFC, TextSeg, balanced, opens, closes]) (by simp [WFC, TextSeg, balanced, opens, closes])
+  exact absurd this (by decide +kernel)
+
+/-- **Full statement**: leading dots are ignored. -/
+def LeadingDotsIgnored (fixed : Bool) : Prop :=
+  ∀ (ld : Nat) (comps : List (Name × Nat)), WFC comps → comps ≠ [] →
+    chain fixed (SKey.render ⟨ld, comps⟩) = chain fixed (SKey.render ⟨0, comps⟩)
+
+theorem leading_dots_ignored_partial (fixed : Bool) (ld : Nat) (comps : List (Name × Nat)) (hw : WFC comps)
+    (hne : comps ≠ [])
+    (hok1 : fixed = true ∨ reducesToDotName (SKey.render ⟨ld, comps⟩) = false)
+    (hok2 : fixed = true ∨ reducesToDotName (SKey.render ⟨0, comps⟩) = false) :
+    chain fixed (SKey.render ⟨ld, comps⟩) = chain fixed (SKey.render ⟨0, comps⟩) := by
   have h : ∀ n, SKey.render ⟨n, comps⟩ ≠ [] := by
     intro n h
     have := renderComps_ne hw hne
     simp only [SKey.render, List.append_eq_nil_iff] at h
     exact this h.2
-  rw [resolve_normal ⟨ld, comps⟩ hw (h ld), resolve_normal ⟨0, comps⟩ hw (h 0)]
+  rw [chain_render fixed ⟨ld, comps⟩ hw (h ld) hok1, chain_render fixed ⟨0, comps⟩ hw (h 0) hok2]
   rfl
 
-/- non-vacuity: keys of the documentation and of the parsers (`'..length'`, `'...command'`) -/
+theorem leading_dots_ignored_repaired : LeadingDotsIgnored true :=
+  fun ld comps hw hne => leading_dots_ignored_partial true ld comps hw hne (Or.inl rfl) (Or.inl rfl)
+
+/-- false for the code as it is: `'.c'` does not resolve as `'c'` does -/
+theorem leading_dots_ignored_fails : ¬ LeadingDotsIgnored false := by
+  intro h
+  have := h 1 [("c".toList, 0)] (by simp [WFC, TextSeg, balanced, opens, closes]) (by simp)
+  exact absurd this (by decide +kernel)
+
+/- non-vacuity: keys of the documentation and of the parsers (`'..length'`, `'...command'`); the
+excluded class is small: leading dots before two or more components are fine -/
 example : (SKey.mk 0 [("a".toList, 1), ("b".toList, 1), ("c".toList, 3), ("d".toList, 0)]).WF := by
   simp [SKey.WF, WFC, TextSeg, balanced, opens, closes]
-example : chain true "a.b.c...d".toList = ⟨["a".toList, "d".toList], none⟩ := by decide +kernel
-example : chain true "..length".toList = ⟨["length".toList], none⟩ := by decide +kernel
-example : chain true "l[1].x...l[0]".toList = ⟨["l[0]".toList], none⟩ := by decide +kernel
-example : chain true "a.b..".toList = ⟨["a".toList], none⟩ := by decide +kernel
-example : chain true "a..".toList = ⟨[], some .key⟩ := by decide +kernel
-
-/-- **Witness (code before `fix: C16-resolve-leading-dot`)**: a key that reduces to one leading dot
-and a single name resolves to that name *twice*: `d['.c'] = 2` creates `d.c.c`, and looking up
-`'.c'` in a dotdict that holds `c = 2` raises `KeyError`. -/
-theorem resolveOld_leading_dot :
-    chain false ".c".toList = ⟨["c".toList, "c".toList], none⟩ ∧
-    (setT { liveCfg with fixResolve := false } (.node []) ".c".toList (.tree (.leaf 2))).1
-      = .node [("c".toList, .node [("c".toList, .leaf 2)])] ∧
-    getT { liveCfg with fixResolve := false } (.node [("c".toList, .leaf 2)]) ".c".toList = .error .key ∧
-    getT liveCfg (.node [("c".toList, .leaf 2)]) ".c".toList = .ok (.leaf 2) := by
-  decide +kernel
+example : reducesToDotName "a.b.c...d".toList = false ∧ reducesToDotName "..length".toList = false ∧
+    reducesToDotName ".a.b".toList = false ∧ reducesToDotName "a.....a.b".toList = false ∧
+    reducesToDotName ".c".toList = true ∧ reducesToDotName "a...c".toList = true := by decide +kernel
+example : chain false "a.b.c...d".toList = ⟨["a".toList, "d".toList], none⟩ := by decide +kernel
+example : chain false "..length".toList = ⟨["length".toList], none⟩ := by decide +kernel
+example : chain false ".a.b".toList = ⟨["a".toList, "b".toList], none⟩ := by decide +kernel
+example : chain false "l[1].x...l[0]".toList = ⟨["l[0]".toList], none⟩ := by decide +kernel
+example : chain false "a.b..".toList = ⟨["a".toList], none⟩ := by decide +kernel
+example : chain false "a..".toList = ⟨[], some .key⟩ := by decide +kernel
 
 /-! ## 2. lookup after assignment -/
 
@@ -161,11 +233,11 @@ example : containsT liveCfg tSample "a.x..b".toList = .ok true ∧
 /-- **Every listed key looks up to the listed value and is a member** — for every dotdict whose raw
 keys are identifiers and whose lists of mappings have at most 10 elements (`shortK`: a longer list
 is listed with space-padded indices, which is outside the literal-index model). -/
-theorem listed_key_looks_up (cfg : Cfg) (hfix : cfg.fixResolve = true) (kvs : Kvs)
+theorem listed_key_looks_up (cfg : Cfg) (kvs : Kvs)
     (hw : wfK isIdent kvs = true) (hs : shortK kvs = true) (k : Name) (v : Tree)
     (h : (k, v) ∈ items (.node kvs)) :
     getT cfg (.node kvs) k = .ok v ∧ containsT cfg (.node kvs) k = .ok true :=
-  items_lookup cfg hfix kvs hw hs k v h
+  items_lookup cfg kvs hw hs k v h
 
 /-- **Key iteration lists exactly the leaf paths**: `(key, v)` is yielded iff `key` is the dotted
 form of a path that descends through non-empty levels by name and through non-empty lists of
@@ -356,10 +428,10 @@ theorem run_is_nested_map (cfg : Cfg) (hfix : cfg.fixReserved = true) (ops : Lis
   wfRoot_run cfg hfix ops t ht hops
 
 example : wfRoot (goodName liveCfg) (.node []) := ⟨[], rfl, rfl⟩
-example : KeysOK (goodName liveCfg) liveCfg (chain true "a.x..l[1].y".toList).segs := by
+example : KeysOK (goodName liveCfg) liveCfg (chain liveCfg.fixResolve "a.x..l[1].y".toList).segs := by
   intro m hm hr hlit
   have : m = "a".toList ∨ m = "l[1]".toList ∨ m = "y".toList := by
-    have : (chain true "a.x..l[1].y".toList).segs = ["a".toList, "l[1]".toList, "y".toList] := by decide +kernel
+    have : (chain liveCfg.fixResolve "a.x..l[1].y".toList).segs = ["a".toList, "l[1]".toList, "y".toList] := by decide +kernel
     rw [this] at hm; simpa using hm
   rcases this with rfl | rfl | rfl
   · decide +kernel
